@@ -1774,7 +1774,7 @@ class SigTables:
         a = fd.args
         pos = a.posonlyargs + a.args
         dfl = [None] * (len(pos) - len(a.defaults)) + list(a.defaults)
-        out = [(x.arg, 'PPos', self.default_of(d)) for x, d in zip(pos, dfl)]
+        out = [(x.arg, 'PPosOnly' if i < len(a.posonlyargs) else 'PPos', self.default_of(d)) for i, (x, d) in enumerate(zip(pos, dfl))]
         if skip_first and out:
             out = out[1:]
         if a.vararg:
@@ -1971,7 +1971,7 @@ class SigTables:
                     bo, sub = o2, f2
             if any(isinstance(x, ast.Starred) for x in call.args) or any(k.arg is None for k in call.keywords):
                 return {p: trans(call) for p, _, _ in ps}
-            posn = [b for b in bps if b[1] == 'PPos']
+            posn = [b for b in bps if b[1] in ('PPos', 'PPosOnly')]
             for i, x in enumerate(call.args):
                 if isinstance(x, ast.Name) and i < len(posn):
                     handed.setdefault(x.id, []).append(posn[i][0])
@@ -2171,7 +2171,7 @@ Import ListNotations.
 Open Scope string_scope.
 
 Inductive store := Stored | StoredAs (attr : string) | Transformed (line : Z) (src : string) | NotStored.
-Inductive pkind := PPos | PVarPos | PKwOnly | PVarKw.
+Inductive pkind := PPosOnly | PPos | PVarPos | PKwOnly | PVarKw.
 Inductive dflt := DReq | DNone | DBool (b : bool) | DInt (z : Z) | DStr (s : string) | DEmptyDict | DEmptyList
                 | DMutable (src : string) | DOther (src : string).
 Inductive tdkind := TDDecorated | TDInherited | TDHand | TDHandInherited | TDUnknown | TDNone.
